@@ -57,7 +57,9 @@ def run(ctx) -> None:
     ok = len(outs) == 1 and isinstance(outs[0].value, ast.IfExp) and src(outs[0].value.test) == "graph.selected is not None" and src(outs[0].value.body) == "graph.selected" and src(outs[0].value.orelse) == "graph.outputs"
     rep.add("C05.R3", f"{gn.qname}:outputs", ok, init.loc(), "wrapper outputs = inner selection if set, else all inner outputs" if ok else "wrapper outputs are not 'graph.selected if set else graph.outputs'")
     rs = db.func("runners._shared.helpers._resolve_select")
-    t = src(rs.node)
+    from .common import canon_src
+
+    t = canon_src(rs)  # the private helper's own parameter names do not matter
     ok = "graph.selected is not None" in t and "list(graph.selected)" in t and "'**'" in t
     rep.add("C05.R3", f"{rs.qname}:same-policy", ok, rs.loc(), "the nested run's default selection is the inner selection if set, else all outputs — the policy that defines the wrapper's outputs" if ok else "the nested run's default selection differs from what the wrapper exposes")
 
